@@ -642,6 +642,10 @@ def worker(block):
                                      (2, False, False, False, "equal"),
                                      (0, False, False, False, "falsy"),
                                      (1, True, False, False, "falsy")]
+                    if kind == "expr":
+                        # the same listener object listed twice in the constructor: the names of
+                        # an expression guard are still read once per provider
+                        variants += [(1, False, False, False, None)]
                     variants = [v + (None,) for v in variants]
                     if cfg.engine == "async" and len(dist) == 1:
                         # mixed listeners: only one of the constructor listeners is a coroutine
